@@ -176,7 +176,9 @@ def check(report, tier, only=None):
     report.outside += ['that TLS actually fails for an impostor (cryptographic trust base)', 'loss during the handshake, concurrent dials', 'quinn connect_with plumbing']
     obs = [('pinned', lambda rep: tlsglue.ob_expected_verifier(rep, PROP)), ('expected_identity', lambda rep: tlsglue.ob_expected_id_flow(rep, PROP)),
            ('signature', lambda rep: tlsglue.ob_signature_delegation(rep, PROP)), ('dial_waits', lambda rep: dial.ob_dial_task(rep, PROP)),
-           ('dial_result', ob_connecting_result), ('connect_request', ob_connect_request), ('handshake', ob_handshake), ('add_transition', C04.ob_add)]
+           ('dial_result', ob_connecting_result), ('connect_request', ob_connect_request), ('handshake', ob_handshake), ('add_transition', C04.ob_add),
+           # "registered" in dial_result_after_registration means add_peer: every connection it is given reaches ActivePeers::add (and gets its handler iff kept)
+           ('add_peer_wiring', lambda rep: __import__('props.handler', fromlist=['x']).ob_add_peer(rep, PROP))]
     for n, f in obs:
         if only and not any(s in n for s in only):
             continue
